@@ -8,9 +8,10 @@ sys.path.insert(0, os.path.dirname(os.path.abspath(__file__)))
 import vlib, refs, pairs
 
 _UH = {}
+_FALLBACK = None
 SIZES = {  # (quick, thorough) number of pairs per stratum
     "uniform": (120, 2500), "threshold": (260, 6000), "grey": (80, 3000), "named": (60, 2000),
-    "nearbg": (80, 2000), "hair": (60, 1200), "witness": (900, 20000), "witness_neargrey": (900, 20000), "witness_translucent": (900, 20000), "spell": (130, 3000), "isolum": (150, 3000), "hairline": (70, 1500), "corner": (120, 2500), "zeroone": (40, 400), "edge": (120, 2500), "ultrahair": (90, 1500), "neargrey": (90, 1500), "informal": (60, 1000), "razor": (150, 3000), "extreme": (60, 1500), "hslbg": (90, 2000), "witness_edge": (900, 20000), "witness_hsl": (900, 20000),
+    "nearbg": (80, 2000), "hair": (60, 1200), "witness": (900, 20000), "witness_neargrey": (900, 20000), "witness_translucent": (900, 20000), "spell": (130, 3000), "isolum": (150, 3000), "hairline": (70, 1500), "corner": (120, 2500), "zeroone": (40, 400), "edge": (120, 2500), "ultrahair": (90, 1500), "neargrey": (90, 1500), "informal": (60, 1000), "razor": (150, 3000), "extreme": (60, 1500), "hslbg": (90, 2000), "witness_edge": (900, 20000), "history": (150, 3000), "witness_hsl": (900, 20000),
 }
 
 
@@ -32,7 +33,7 @@ def strata(pid, t, rnd):
 
     w = {"C01": dict(uniform=1, threshold=1, grey=1, named=1, nearbg=.5, hair=.5, spell=1, isolum=.3, hairline=1, corner=.5, zeroone=1, edge=.5, ultrahair=1, neargrey=.5, informal=.5, razor=1, extreme=.5, hslbg=1),
          "C02": dict(uniform=.7, threshold=1, grey=.7, named=.5, nearbg=.7, hair=1.5, spell=.6, isolum=4, hairline=1, corner=3, zeroone=1, ultrahair=.5, neargrey=1.5, informal=1.5, razor=1.4, extreme=.5, hslbg=1),
-         "C16": dict(uniform=.5, threshold=1.2, grey=.5, named=.3, nearbg=2.0, hair=.3, spell=.2, isolum=.5, edge=2, corner=.3),
+         "C16": dict(uniform=.5, threshold=1.2, grey=.5, named=.3, nearbg=2.0, hair=.3, spell=.2, isolum=.5, edge=2, corner=.3, history=1),
          "C04": dict(uniform=1, threshold=1, grey=.5, named=.3, nearbg=1.5, hair=.2, spell=.3, isolum=.5),
          "C03": dict(witness=1, witness_neargrey=.25, witness_translucent=.2, witness_hsl=.25, extreme=3, witness_edge=.6)}[pid]
     for name, scale in w.items():
@@ -159,6 +160,21 @@ def strata(pid, t, rnd):
                 a, b = pairs.near_threshold(rnd, tq, (0.0, 0.07))
                 txt = pairs.spell(a, "hslfn", rnd)          # whole degrees and percentages: denotes a colour next to a
                 add(txt, b, large, "hslfn", witness=True, runs=[(m, v2) for v2 in (True, False) for m in (0, 1, 2)])
+            elif name == "history":
+                # the pair's runs come after a short history of relaxed-mode calls that needed the fallback options (selected
+                # by scanning the implementation; the verdict on the pair's own runs is TLC's): "asking for less never fails"
+                # holds after any history
+                global _FALLBACK
+                if _FALLBACK is None:
+                    _FALLBACK = pairs.fallback_pairs(rnd, 500 if t == "quick" else 6000)
+                vr = bool(k & 1)
+                a, b = pairs.near_threshold(rnd, pairs.REQ[(large, vr)], (0.0, 0.3))
+                pre = []
+                if _FALLBACK:
+                    for _j in range(rnd.choice([3, 3, 4, 6])):
+                        ft, fb, flg, fvr = rnd.choice(_FALLBACK)
+                        pre.append((ft, fb, flg, 2, fvr))
+                add(a, b, large, runs=[(1, vr), (2, vr)] if k % 2 else [(2, vr), (1, vr)], prelude=pre)
             elif name == "hslbg":
                 # the BACKGROUND written as an exact hsl() value with its hue turns away (negative / beyond 360): near-black and
                 # near-grey backgrounds (saturation / lightness below 1 %), and ordinary ones just off a requirement
